@@ -3,7 +3,8 @@
    jsontodsl.go (Model/Printer.v), tied to the code by the correspondence of every run;
    [expressible] (Spec/Expressible.v) is written without the printer's validator counter. *)
 From Verif Require Import Base.Str Base.Outcome Model.Ast Model.Token Model.Parser Model.Listener Model.Printer
-  Spec.Sem Spec.Expressible Spec.Normalize Proofs.PrinterExpressible Proofs.Lossless Proofs.ParserComplete Proofs.LosslessTokens.
+  Spec.Sem Spec.Expressible Spec.Normalize Proofs.PrinterExpressible Proofs.Lossless Proofs.ParserComplete Proofs.LosslessTokens
+  Proofs.LexInversion Proofs.LexRender Proofs.ParserNatural Proofs.RoundTripChars.
 
 (* 1. on every rewrite a DSL document can carry, the printer's walk succeeds and its counter equals the
       number of direct assignments in the tree — for all trees, of any depth and operator nesting *)
@@ -68,8 +69,7 @@ Proof. reflexivity. Qed.
 
 (* 8. ... and that tree is what the parser model returns for its canonical token sequence (printer -> tokens ->
       parser -> denotation = normalize u).  [stops k]: what follows the definition does not start with white space
-      (a line break or the end of input).  Still not mechanised: that the characters of the printed line lex to
-      these tokens (Model/Lexer.v against the generated lexer: token correspondence of every run). *)
+      (a line break or the end of input).  The characters are added in 9-11. *)
 Theorem C02_printed_tree_parses_back : forall refs u k,
   carriable u = true -> expressible u = true -> refs <> [] -> stops k ->
   let d := rdef_of refs u in
@@ -77,3 +77,34 @@ Theorem C02_printed_tree_parses_back : forall refs u k,
     = Some ((rd_first d, rd_op d, rd_rest d), k) /\
   sem_rdef d = normalize u.
 Proof. exact printed_tree_parses_back. Qed.
+
+(* 9. AT CHARACTER LEVEL: the text the printer model writes for the relation, followed by the line feed the document
+      puts after it, is lexed without error by the lexer model and parsed back to a definition whose denotation is
+      the normalised rewrite and whose restrictions are the relation's — for every carriable expressible rewrite
+      whose names are plain identifiers that no literal rule of the lexer claims ([plain_name]: a letter or '_'
+      followed by letters, digits, '_' or '-', not a keyword of Gen/Keywords.v, not "but").  The keyword tables are
+      regenerated from the generated Go lexer on every run; the facts about them are re-proved by computation. *)
+Theorem C02_printed_relation_reads_back : forall refs u,
+  carriable u = true -> expressible u = true -> refs <> [] -> Forall plain_ref refs -> plain_u u ->
+  exists t,
+    print_top u refs = Some (t, count_direct u) /\
+    snd (Model.Lexer.lex (t ++ [10])) = [] /\
+    exists first op rest k,
+      p_def (S (depth_def (rd_first (rdef_of refs u)) (rd_rest (rdef_of refs u)))) true (fst (Model.Lexer.lex (t ++ [10]))) = Some ((first, op, rest), k) /\
+      map tk k = [NEWLINE] /\
+      sem_rdef {| rd_first := first; rd_op := op; rd_rest := rest |} = normalize u /\
+      restrictions_elem first = (if (count_direct u =? 0)%nat then None else Some refs).
+Proof. exact printed_relation_reads_back. Qed.
+
+(* 10. the lexer half on its own: the canonical rendering of any tree with plain names lexes to its canonical tokens *)
+Theorem C02_lexer_inverts_the_printer : forall d,
+  rdef_lex_ok d ->
+  map (fun t => (tk t, ttext t)) (fst (Model.Lexer.lex_all (render_rdef d ++ [10]))) =
+    kts (toks_def (rd_first d) (rd_op d) (rd_rest d)) ++ [(NEWLINE, [10])] /\
+  snd (Model.Lexer.lex_all (render_rdef d ++ [10])) = [].
+Proof. exact printed_line_lexes. Qed.
+
+(* 11. the parser half: relabelling tokens without changing their kinds commutes with parsing a definition *)
+Theorem C02_parser_reads_kinds_only : forall (g : tok -> tok), (forall t, tk (g t) = tk t) ->
+  forall fuel direct ts, p_def fuel direct (map g ts) = pmap g (def_map g) (p_def fuel direct ts).
+Proof. intros g Hg fuel. exact (p_def_natural g Hg fuel). Qed.
